@@ -124,7 +124,7 @@ fn cmd_check(args: &[String]) -> i32 {
     }
     let mut exit = 0;
     let _ = std::fs::create_dir_all(format!("{}/replays", VERIF_DIR));
-    for (case, viol) in new_violations.iter().take(3) {
+    for (case, viol) in new_violations.iter().take(if std::env::var_os("SIM_ALL_VIOLATIONS").is_some() { 50 } else { 3 }) {
         let (min_case, steps) = driver::minimise(check.as_ref(), case, &viol.class, Duration::from_secs(60), Duration::from_secs(if tier == Tier::Quick { 60 } else { 240 }));
         // re-evaluate the minimised case in a fresh process for the final detail text
         let r = driver::eval_case(check.as_ref(), &min_case, Duration::from_secs(60));
@@ -152,6 +152,9 @@ fn cmd_check(args: &[String]) -> i32 {
         sum.harness_errors.len()
     );
     println!("reach={:?}", sum.reach);
+    for (c, (n, s0)) in &sum.classes {
+        println!("class count={} first_seed={} {}", n, s0, c);
+    }
     if !sum.harness_errors.is_empty() {
         for (s, e) in sum.harness_errors.iter().take(5) {
             println!("HARNESS-ERROR seed={} {}", s, e.chars().take(400).collect::<String>());
@@ -209,7 +212,8 @@ fn cmd_one(args: &[String]) -> i32 {
     let check = checks::by_id(id).expect("known check");
     let tier = if args.iter().any(|a| a == "thorough") { Tier::Thorough } else { Tier::Quick };
     let fams = check.families(tier);
-    let fam = arg_val(args, "--family").unwrap_or_else(|| fams[(seed as usize) % fams.len()].to_string());
+    let base: u64 = arg_val(args, "--base").and_then(|s| s.parse().ok()).unwrap_or(20260926);
+    let fam = arg_val(args, "--family").unwrap_or_else(|| fams[(seed.wrapping_sub(base) as usize) % fams.len()].to_string());
     let fam_static = fams.iter().find(|f| **f == fam).copied().unwrap_or(fams[0]);
     let case = check.gen(seed, fam_static, tier);
     if args.iter().any(|a| a == "--case") {
@@ -240,7 +244,7 @@ fn cmd_determinism(args: &[String]) -> i32 {
             let mut i = k as u64;
             while i < n {
                 let seed = base + i;
-                let fam = fams[(seed as usize) % fams.len()];
+                let fam = fams[(i as usize) % fams.len()];
                 let case = check.gen(seed, fam, tier);
                 let a = driver::eval_case(check.as_ref(), &case, Duration::from_secs(120));
                 let b = driver::eval_case(check.as_ref(), &case, Duration::from_secs(120));
